@@ -60,6 +60,8 @@ impl DiskReadScheduler {
         cols: &RwLock<HashMap<String, Arc<ColumnHandle>>>,
         perf_counter: &QueryPerfCounter,
     ) -> Option<Arc<Column>> {
+        #[cfg(feature = "verif")]
+        crate::verif::sync_point(&format!("load:enter:{}", handle.table()));
         let partition_handle = (handle.table().to_string(), handle.id());
         if !self
             .load_scheduled
